@@ -99,6 +99,8 @@ func runC08(c *Collector, r *Rng, thorough bool) {
 		n = 6000
 	}
 	reps := 12
+	genBigInts = true
+	defer func() { genBigInts = false }()
 	for i := 0; i < n; i++ {
 		cfg := BucketCfg{Spell: true, Max: pick(r, []int{3, 6, 6, 40}), Csig: 1, Invalid: r.Chance(1, 4)}
 		alg := pick(r, goAlgs)
@@ -533,6 +535,53 @@ func runC09(c *Collector, r *Rng, thorough bool) {
 		n = 8000
 	}
 	keys := realKeySet(r)
+	// header values outside int64 (big.Int in memory): bignums and plain integers of 64 bits, in either bucket of the
+	// body, of a signer and of a countersignature; whatever the decoder accepts survives the clearing of the raw bytes
+	bigs := []string{"c2488000000000000000", "c248ffffffffffffffff", "c249010000000000000000", "c24105", "c240", "3b8000000000000000", "3bffffffffffffffff",
+		"3b7fffffffffffffff", "1b7fffffffffffffff", "1b8000000000000000", "c3488000000000000000", "c349010000000000000000", "c34105", "c348ffffffffffffffff"}
+	for _, bv := range bigs {
+		val, _ := refParseFull(unhex(bv))
+		for _, where := range []string{"body-protected", "body-unprotected", "signer-protected", "signer-unprotected", "countersignature-protected", "countersignature-unprotected"} {
+			pm := func(on bool) *W {
+				if on {
+					return wBstr(wMap(-1, wInt(1, -1), wInt(-7, -1), wInt(99, -1), val.Clone()).Ser(), -1)
+				}
+				return wBstr(wMap(-1, wInt(1, -1), wInt(-7, -1)).Ser(), -1)
+			}
+			um := func(on bool, extra ...*W) *W {
+				kv := append([]*W{}, extra...)
+				if on {
+					kv = append(kv, wInt(99, -1), val.Clone())
+				}
+				return wMap(-1, kv...)
+			}
+			var t *W
+			kind := "DSign1"
+			switch where {
+			case "body-protected", "body-unprotected":
+				t = wTag(18, -1, wArr(-1, pm(where == "body-protected"), um(where == "body-unprotected"), wBstr([]byte("p"), -1), wBstr([]byte{1, 2}, -1)))
+			case "signer-protected", "signer-unprotected":
+				kind = "DSignMsg"
+				sg := wArr(-1, pm(where == "signer-protected"), um(where == "signer-unprotected"), wBstr([]byte{1, 2}, -1))
+				t = wTag(98, -1, wArr(-1, wBstr(nil, -1), wMap(-1), wBstr([]byte("p"), -1), wArr(-1, sg)))
+			default:
+				cs := wArr(-1, pm(where == "countersignature-protected"), um(where == "countersignature-unprotected"), wBstr([]byte{3, 4}, -1))
+				t = wTag(18, -1, wArr(-1, pm(false), um(false, wInt(11, -1), cs), wBstr([]byte("p"), -1), wBstr([]byte{1, 2}, -1)))
+			}
+			data := t.Ser()
+			d := decodeCase(c, "bignum/"+where, kind, data)
+			if d.err != nil || d.paniced {
+				continue
+			}
+			rep := map[string]any{"kind": kind, "data": hx(data), "value": bv, "where": where}
+			if d.reerr != nil || !bytes.Equal(d.reenc, data) {
+				c.Fail("C09/reencode-differs", fmt.Sprintf("re-encoding a canonical message changed it: %x (%v)", d.reenc, d.reerr), rep)
+				continue
+			}
+			c09Cleared(c, kind, data, rep)
+			c09Partial(c, kind, data, d.reenc, rep)
+		}
+	}
 	// a message obtained through VerifyHashEnvelope is a decoded message like any other: re-encoding it reproduces
 	// the received header bytes (here a protected map another implementation spelled differently) and stays valid
 	for i := 0; i < n/5+2; i++ {
